@@ -64,6 +64,14 @@ def run_case(prop, cfg, ops, opts=None, wall=20):
     except Violation as v:
         r.violation = {"property": v.prop, "oracle": v.oracle,
                        "message": v.msg, "op_index": v.op_index}
+        if w.faulted and not opts.get("no_control") and \
+                _control_diverges(cfg, ops, v.op_index):
+            # the same history without the injected fault goes wrong as
+            # well: whatever this is, it is not a consequence of the fault
+            r.violation = None
+            r.foreign = "foreign ['control'] diverges-without-fault at op " \
+                "%d: %s" % (v.op_index, v.msg[:200])
+            w.probe("fault-free-control-diverges")
     except WallCap as e:
         r.harness = "wall-cap: %s" % e
     except Exception as e:
@@ -74,6 +82,33 @@ def run_case(prop, cfg, ops, opts=None, wall=20):
         signal.signal(signal.SIGALRM, old)
         set_tz("UTC")
     return r
+
+
+def _strip_faults(ops):
+    out = []
+    for op in ops:
+        o = copy.deepcopy(op)
+        o.pop("faults", None)
+        o.pop("cfault", None)
+        o.pop("poison", None)
+        out.append(o)
+    return out
+
+
+def _control_diverges(cfg, ops, upto):
+    """Fault-free control of a faulted history (same operations, no crash,
+    no I/O error, no failing collaborator)."""
+    w2 = World(cfg, "__twin__", tf())
+    tz_before = os.environ.get("TZ", "UTC")
+    try:
+        w2.run(_strip_faults(ops[:upto + 1]))
+    except Violation:
+        return True
+    except Exception:
+        return False
+    finally:
+        set_tz(tz_before)
+    return w2.foreign is not None
 
 
 def _make_twin(cfg, ops):
